@@ -27,13 +27,16 @@ LEVEL = "exploration"
 SHARDS = {"quick": 8, "thorough": 16}
 BUDGET = {"quick": 24.0, "thorough": 400.0}
 RULE = (
-    "seeded widget-tree recipes from the typed grammar in vmon/gen/trees.py (33 bundled classes: 15 leaves, 12 decorations, "
-    "6 containers; documented-valid option combinations only; depth<=3 quick / <=5 thorough) x encodings utf8 / wide(euc-jp) / "
-    "narrow(ascii) with str and bytes texts (ASCII, Latin-1, double-width CJK, zero-width combining, emoji, DEC line drawing) x "
-    "every sizing mode root.sizing() reports x sizes box {1,2,3,5,8,13,40}^2 (all 49 or a seeded subset that always contains "
-    "1x1), flow cols 1..13 and 40, fixed () x focus False/True. One case = (mode, tree, size, focus); distinct = distinct "
-    "descriptors; non-trivial = not skipped by the validity filter (urwid emitted no WidgetWarning). Every inner widget's "
-    "canvas is judged by monitor M1 at the size it was handed."
+    "widget-tree recipes from the typed grammar in vmon/gen/trees.py (33 bundled classes: 15 leaves, 12 decorations, 6 containers; "
+    "documented-valid option combinations only) in three phases: (1) every leaf class alone x 3 encodings x 2 (quick) / 6 (thorough) "
+    "seeded variants; (2) every decoration / container class as the root x 3 encodings x 3 / 12 variants of depth 1-2; (3) seeded random "
+    "trees of depth 1..3 (quick, <=110 per shard) / 1..5 (thorough, <=1200 per shard).  Encodings utf8 / wide(euc-jp) / narrow(ascii), "
+    "str and bytes texts (ASCII, Latin-1, double-width CJK, zero-width combining, emoji, DEC line drawing).  Every tree is driven in every "
+    "sizing mode root.sizing() reports x sizes box {1,2,3,5,8,13,40}^2 (all 49 in thorough and in phase 1; 1x1 plus 9 seeded others in "
+    "quick), flow cols 1..13 and 40, fixed () x focus False/True.  One case = (encoding, tree, size, focus); distinct = distinct "
+    "descriptors; non-trivial = not rejected by the validity filter (urwid emitted no WidgetWarning).  Monitor M1 additionally judges the "
+    "canvas of every inner widget at the size it was handed (m1_judged).  The op-count bounds are reached before the time budget on an "
+    "unloaded machine, so a run explores the same cases every time; under load it explores a prefix of them."
 )
 ASSUMES = [
     "sizing() is taken at its word: only sizing modes the root reports are driven, and an inner widget is judged only when the mode of the size it was handed is one it reports",
@@ -757,5 +760,3 @@ def replay(ctx, wit):
         urwid.util.set_encoding(old_enc)
         urwid.canvas.CanvasCache.clear()
 
-
-_ = re
